@@ -10,9 +10,10 @@
    * a DNSKEY is (material, flags); material stands for (algorithm, protocol,
      public key) exactly as dnskeyMaterialFP groups them;
    * the key tag is an ARBITRARY function [tag : key -> N] (Section variable);
-     nothing relates tag(revoked k) to tag k — the code's `tag - 0x80` lookups
-     are written as they are (uint16 wrap), so every theorem holds for every
-     tag function, including the real RFC 4034 checksum with its carry;
+     nothing relates tag(revoked k) to tag k — the anchor a revoked DNSKEY
+     belongs to is looked up under unrevokedKeyTag = tag of the key with the
+     REVOKE bit cleared (repaired code, 1f61a03), so every theorem holds for
+     every tag function, including the real RFC 4034 checksum with its carry;
    * crypto is symbolic: a fetched response carries, per RRSIG, the key tag
      field, the material of the key whose private half made it, and whether it
      is a valid signature over exactly this DNSKEY RRset (period included);
@@ -70,8 +71,8 @@ Definition ns_per_min : Z := 60000000000%Z.
 Definition hold_add : Z := (go_hold_add_ns / ns_per_min)%Z.
 Definition hold_rem : Z := (go_hold_rem_ns / ns_per_min)%Z.
 
-(* uint16 subtraction `tag - DNSKEYFlagRevoke` *)
-Definition sub16 (t d : N) : N := subw two16 t d.
+(* unrevokedKeyTag's argument: the same key with the REVOKE bit cleared (plain.Flags &^= DNSKEYFlagRevoke) *)
+Definition unrev (k : key) : key := mk_key (k_mat k) (N.ldiff (k_flags k) go_unrevoke_mask).
 
 (* ---------------------------------------------------------------- fetch *)
 Record sig := mk_sig { s_tag : N; s_mat : N; s_ok : bool }.
@@ -126,6 +127,12 @@ Definition migrate_step (t : tmap) (e : N * ta) : tmap :=
   if is_marker a && negb (mem (ta_mat a) t) then set (ta_mat a) (mk_tomb (ta_key a) (ta_fs a)) t else t.
 Definition migrate (ksk : kmap) (tombs : tmap) : tmap := fold_left migrate_step ksk tombs.
 
+(* admin pre-seeded revocations (configured DNSKEY with the REVOKE bit) become tombstones
+   BEFORE the precedence pass *)
+Definition cfgrev_step (now : Z) (t : tmap) (k : key) : tmap :=
+  if is_ksk k && is_rev k && negb (mem (k_mat k) t) then set (k_mat k) (mk_tomb k now) t else t.
+Definition cfgrev (now : Z) (cfg : list key) (tombs : tmap) : tmap := fold_left (cfgrev_step now) cfg tombs.
+
 (* tombstone precedence over non-marker entries *)
 Definition precedence (ksk : kmap) (tombs : tmap) : kmap :=
   filter (fun e => is_marker (snd e) || negb (mem (ta_mat (snd e)) tombs)) ksk.
@@ -159,7 +166,7 @@ Definition verify_with (ks : list key) (sigs : list sig) : bool := existsb (sig_
 (* verifyFetchedKeysWithWork *)
 Definition bootstrap (current keys : list key) : list key :=
   filter (fun k' => is_rev k' &&
-            existsb (fun c => (tag c =? sub16 (tag k') go_bootstrap_tag_delta) && same_except_revoke c k') current) keys.
+            existsb (fun c => (tag c =? tag (unrev k')) && same_except_revoke c k') current) keys.
 Definition authenticate (cand keys : list key) (sigs : list sig) : auth :=
   match keys with
   | [] => AuthFail
@@ -191,7 +198,7 @@ Definition stage_one (ksk : kmap) (tombs : tmap) (sigs : list sig) (fm : list (N
     if negb (is_rev k') then []
     else if mem (k_mat k') tombs then []
     else if ident_existing ksk t k' then []
-    else match lookup (sub16 t go_stage_tag_delta) ksk with
+    else match lookup (tag (unrev k')) ksk with
          | None => []
          | Some old =>
            if negb (is_trusted_st old) then []
@@ -212,7 +219,7 @@ Definition process_one (now : Z) (rev_only : bool) (fm : list (N * key)) (staged
     if mem (k_mat k) (p_tombs s) then s
     else if ident_existing (p_ksk s) t k then s
     else if is_rev k then
-      let ot := sub16 t go_revoke_tag_delta in
+      let ot := tag (unrev k) in
       match lookup ot (p_ksk s) with
       | Some old =>
         if is_trusted_st old && same_except_revoke (ta_key old) k && staged_ok staged t
@@ -230,10 +237,13 @@ Definition process_one (now : Z) (rev_only : bool) (fm : list (N * key)) (staged
 Definition process (now : Z) (rev_only : bool) (fm : list (N * key)) (staged : list (N * bool)) (tags : list N) (s : pst) : pst :=
   fold_left (process_one now rev_only fm staged) tags s.
 
-(* KeyRem / KeyPres / hold-down transitions, by TAG as the code does *)
+(* KeyRem / KeyPres / hold-down transitions; presence by tag AND material (repaired code) *)
+(* present = the fetched key under this tag has this entry's material *)
+Definition fm_has (fm : list (N * key)) (t : N) (a : ta) : bool :=
+  match lookup t fm with Some k => k_mat k =? ta_mat a | None => false end.
 Definition keyrem_one (now : Z) (fm : list (N * key)) (e : N * ta) : list (N * ta) :=
   let t := fst e in let a := snd e in
-  match lookup t fm with
+  match (if fm_has fm t a then Some tt else None) with
   | None =>
     match ta_st a with
     | SAddPend | SStart => []
@@ -257,17 +267,20 @@ Definition is_nil {A} (l : list A) : bool := match l with [] => true | _ => fals
 
 (* everything AutoTA computes before the external fetch *)
 Definition prefetch (live cfg : list key) (d : disk) (now : Z) (fl : faults) : option (kmap * tmap) :=
-  let ksk0 := match (if f_sread fl then None else d_state d) with
+  (* state file: exists but unreadable/corrupt -> fail closed; absent -> first start, seed from the live set *)
+  if f_sread fl then None else
+  let ksk0 := match d_state d with
               | Some s => s
               | None => seed_from_live now live
               end in
+  (* tombstone file: corrupt or unreadable -> fail closed; absent -> empty store *)
   match f_tread fl with
-  | TRCorrupt => None
-  | tr =>
-    let tombs0 := match tr with TROk => match d_tomb d with Some t => t | None => [] end | _ => [] end in
-    let tombs1 := migrate ksk0 tombs0 in
+  | TROk =>
+    let tombs0 := match d_tomb d with Some t => t | None => [] end in
+    let tombs1 := cfgrev now cfg (migrate ksk0 tombs0) in
     let ksk1 := precedence ksk0 tombs1 in
     Some (merge now cfg ksk1 tombs1)
+  | _ => None
   end.
 
 (* the persistence tail and the publication policy *)
@@ -314,15 +327,25 @@ Definition candidate (live cfg : list key) (d : disk) (now : Z) (fl : faults) : 
   | None => []
   end.
 
+(* NewResolver (repaired): rootKeys := cfg.RootKeys without REVOKE-flagged keys and without keys whose
+   material is tombstoned on disk; an existing but unreadable tombstone file gives an empty set.
+   configuredRootKeys keeps the whole list. *)
+Definition restart_live (cfg : list key) (d : disk) (tr : tread) : list key :=
+  match tr with
+  | TROk => let tombs := match d_tomb d with Some t => t | None => [] end in
+            filter (fun k => negb (is_rev k) && negb (mem (k_mat k) tombs)) cfg
+  | _ => []
+  end.
+
 (* ------------------------------------------------- the system across runs *)
 Record sys := mk_sys { s_live : list key; s_cfg : list key; s_disk : disk }.
 
 Inductive event :=
 | ERun (now : Z) (fe : fetch) (fl : faults)
     (* the process dies after [k] of the run's successful renames; restart with config [cfg'] *)
-| ECrash (now : Z) (fe : fetch) (fl : faults) (k : nat) (cfg' : list key)
-    (* NewResolver: rootKeys := configuredRootKeys := cfg.RootKeys *)
-| ERestart (cfg' : list key).
+| ECrash (now : Z) (fe : fetch) (fl : faults) (k : nat) (cfg' : list key) (tr : tread)
+    (* NewResolver with configuration cfg'; tr = how the tombstone file reads at start-up *)
+| ERestart (cfg' : list key) (tr : tread).
 
 Definition run_of (s : sys) (now : Z) (fe : fetch) (fl : faults) : result :=
   autota (s_live s) (s_cfg s) (s_disk s) now fe fl.
@@ -330,9 +353,11 @@ Definition run_of (s : sys) (now : Z) (fe : fetch) (fl : faults) : result :=
 Definition step (s : sys) (e : event) : sys :=
   match e with
   | ERun now fe fl => let r := run_of s now fe fl in mk_sys (r_live r) (s_cfg s) (r_disk r)
-  | ECrash now fe fl k cfg' =>
-      let r := run_of s now fe fl in mk_sys cfg' cfg' (apply_writes (s_disk s) (firstn k (r_writes r)))
-  | ERestart cfg' => mk_sys cfg' cfg' (s_disk s)
+  | ECrash now fe fl k cfg' tr =>
+      let r := run_of s now fe fl in
+      let d' := apply_writes (s_disk s) (firstn k (r_writes r)) in
+      mk_sys (restart_live cfg' d' tr) cfg' d'
+  | ERestart cfg' tr => mk_sys (restart_live cfg' (s_disk s) tr) cfg' (s_disk s)
   end.
 Definition exec (s : sys) (h : list event) : sys := fold_left step h s.
 
